@@ -942,6 +942,25 @@ def r07_5(rep: Report) -> None:
                          f'`{var}` is assigned on some paths of one loop iteration only and read at '
                          f'line {use.lineno}: the value of the previous item leaks into this one', use)
     rep.extra['option_module_loops'] = n_loops
+    # each piece of a split option text is decided from the piece
+    from ..idioms import whole_reads_in_item_loops
+    n_split = 0
+    for rel in rep.repo.py_files('dashlive/server/options'):
+        tree = rep.repo.tree(rel)
+        for fn in [n for n in ast.walk(tree) if isinstance(n, (ast.FunctionDef, ast.AsyncFunctionDef))]:
+            k, whole = whole_reads_in_item_loops(fn)
+            if not k:
+                continue
+            n_split += k
+            construct = f'{rel}::{fn.name}'
+            if not whole:
+                rep.ok('R07.5', construct, 'items decided from the item', f'{k} loop(s) over the pieces of a text')
+            for loop, base, use in whole:
+                rep.fail('R07.5', construct, f'items decided from the item:{base}',
+                         f'inside the loop over `{norm(loop.iter)}` the whole text `{base}` is read at line {use.lineno}: what '
+                         'one item of the list means depends on how the others are written', use)
+    if n_split < 2:
+        raise AnalysisError('option parsers: fewer than 2 loops over the pieces of an option text found')
 
 
 def r07_6(rep: Report) -> None:
